@@ -80,6 +80,7 @@ func (n *vnet) runGossip(c c11Case, choose func(step, avail int) int, forge func
 	n.setTopology(adj, evil)
 	n.resetLog()
 	var item ref.Hash
+	var chain []ref.Hash
 	var issuer, receiver *ref.Key
 	switch c.Kind {
 	case "vrx":
@@ -88,6 +89,23 @@ func (n *vnet) runGossip(c c11Case, choose func(step, avail int) int, forge func
 			return "", "", nil, nil, "origin: " + err.Error()
 		}
 		item = v.Hash
+	case "chain2":
+		// two DEPENDENT items in flight together: V1 and its child V2, both accepted at the origin. A relay may see the
+		// child first; then its ledger only parks it, and it must not sign / forward it ("forwards an item only after
+		// its own ledger has accepted it"). Exactly-once delivery of the overtaking child is C13's business, not judged.
+		v1, err := n.originVertex(c.Origin)
+		if err != nil {
+			return "", "", nil, nil, "origin: " + err.Error()
+		}
+		if !n.settle() {
+			return "", "", nil, nil, "network did not settle after origin"
+		}
+		v2, err := n.originVertex(c.Origin)
+		if err != nil {
+			return "", "", nil, nil, "origin: " + err.Error()
+		}
+		item = v2.Hash
+		chain = []ref.Hash{v1.Hash, v2.Hash}
 	case "confirm":
 		// a contract is first gossiped as an awaiting transaction (to completion), then the vertex sealing that very
 		// transaction, countersigned by the receiver, is created at the origin and gossiped: the usual propose/confirm flow
@@ -190,6 +208,36 @@ func (n *vnet) runGossip(c c11Case, choose func(step, avail int) int, forge func
 	n.mu.Lock()
 	events := append([]vevent(nil), n.events...)
 	n.mu.Unlock()
+	if c.Kind == "chain2" {
+		defer func() {
+			// bring the network back to uniform ledgers for the next item
+			for _, vn := range n.nodes {
+				for k := 0; k < 10 && len(vn.book.VerifParkedList()) > 0; k++ {
+					vn.book.VerifRetryOne(bg)
+				}
+			}
+			n.syncLedgers()
+		}()
+		for _, h := range chain {
+			admitAt := map[int]int{}
+			for _, e := range events {
+				if e.Hash == h && e.Kind == "admit" {
+					if _, ok := admitAt[e.Node]; !ok {
+						admitAt[e.Node] = e.Seq
+					}
+				}
+			}
+			for _, e := range events {
+				if e.Hash != h || e.Kind != "send" || e.Node == c.Origin {
+					continue
+				}
+				if as, ok := admitAt[e.Node]; !ok || e.Seq < as {
+					return "forwarded-before-accepting", fmt.Sprintf("node %d signed and forwarded vertex %x to node %d although its own ledger had not accepted it (it arrived before its parent; graph {%s}, origin %d, order %v)", e.Node, h[:4], e.To, c.Graph, c.Origin, taken), taken, avail, ""
+				}
+			}
+		}
+		return "", "", taken, avail, ""
+	}
 	sends := map[[2]int]int{}
 	firstSend := map[int]int{}
 	admits := map[int]int{}
@@ -502,7 +550,7 @@ func TestC11(t *testing.T) {
 		for k := 2; k <= 4; k++ {
 			for _, adj := range connectedGraphs(k) {
 				for origin := 0; origin < k; origin++ {
-					for _, kind := range []string{"vrx", "trx", "confirm"} {
+					for _, kind := range []string{"vrx", "trx", "confirm", "chain2"} {
 						idx++
 						if idx%nsh != sh {
 							continue
@@ -510,6 +558,10 @@ func TestC11(t *testing.T) {
 						gs := graphString(adj)
 						var prefix []int
 						orders := 0
+						capOrders := capOrders
+						if kind == "chain2" {
+							capOrders = max(6, capOrders/4) // twice the messages per schedule
+						}
 						for {
 							n := getNet(k)
 							if n == nil {
@@ -598,7 +650,7 @@ func TestC11(t *testing.T) {
 				}
 			}
 			c := c11Case{N: k, Graph: graphString(adj), Origin: rapid.IntRange(0, k-1).Draw(rt, "origin"),
-				Kind: rapid.SampledFrom([]string{"vrx", "vrx", "trx", "confirm", "confirm", "badvrx", "badtrx"}).Draw(rt, "kind"), DupAt: rapid.IntRange(-1, 6).Draw(rt, "dupAt"), Evil: -1}
+				Kind: rapid.SampledFrom([]string{"vrx", "vrx", "trx", "confirm", "confirm", "chain2", "chain2", "badvrx", "badtrx"}).Draw(rt, "kind"), DupAt: rapid.IntRange(-1, 6).Draw(rt, "dupAt"), Evil: -1}
 			n := getNet(k)
 			if n == nil {
 				rt.Skip("no network")
@@ -745,8 +797,12 @@ func completeGraph(k int) [][]bool {
 // syncLedgers hands every archived vertex to every node (parents first) so that all ledgers are equal again after a
 // case in which the relay withheld the item from nodes behind it.
 func (n *vnet) syncLedgers() {
+	ord := n.w.Arch.Order
+	if len(ord) > 12 {
+		ord = ord[len(ord)-12:] // older items were synchronised after their own case
+	}
 	for i := range n.nodes {
-		for _, h := range n.w.Arch.Order {
+		for _, h := range ord {
 			v := n.w.Arch.V[h]
 			if _, err := n.nodes[i].book.ReadVertex(bg, h); err != nil {
 				c := sim.CloneVertex(v)
